@@ -250,9 +250,12 @@ def check_chain(ctx, cumsum):
     rng = np.random.default_rng([ctx.seed, 19])
     for NA, NB in itertools.product(range(0, ctx.pick(4, 7)), repeat=2):
         for iA, fA, iB, fB in itertools.product((0, 1), repeat=4):
-            for dt, off in ((np.uint32, 0), (np.uint32, 2 ** 32 - 2), (np.int64, -3)):
-                a = rng.integers(0, 6, NA).astype(dt)
-                b = rng.integers(0, 6, NB).astype(dt)
+            # typed offsets too: the accumulator must have the OUTPUT dtype whatever the type of `offset` is (a uint64
+            # offset with int64 data would otherwise be accumulated in float64 and lose integers above 2^53)
+            for dt, off in ((np.uint32, 0), (np.uint32, 2 ** 32 - 2), (np.int64, -3), (np.int64, np.uint64(2 ** 53)),
+                            (np.int64, np.uint64(2 ** 62 + 1)), (np.uint32, np.uint64(2 ** 53 + 1))):
+                a = rng.integers(0, 6, NA).astype(dt) | dt(1)      # odd values: every partial sum above 2^53 needs its last bit
+                b = rng.integers(0, 6, NB).astype(dt) | dt(1)
                 nA, nB = NA - 1 + iA + fA, NB - 1 + iB + fB
                 if nA < 0 or nB < 0:
                     continue
